@@ -347,6 +347,9 @@ class _Context:
             search = nonlocal_name.value
             if search in self._local_params_names:
                 continue
+            if search == '__class__' and self.node.type == 'classdef':
+                # Functions in classes have an implicit __class__ cell.
+                continue
             if search in global_name_strs or self.parent_context is None:
                 message = "no binding for nonlocal '%s' found" % nonlocal_name.value
                 self._add_syntax_error(nonlocal_name, message)
